@@ -861,7 +861,12 @@ Print Assumptions C12_parse_total_partial_connectNonNamedObjArgs_keeps_methods.
     C12_parse_total_load_sequence_never_panics: from any pool with INV, loading ANY NUMBER of tables (handles h, h+1, ...; the loop
     stops at the first table that fails to parse) never panics.  C12_parse_total_load_never_panics: the model's entry point [load] (the
     function the correspondence harness runs against the Go parser: CreateDefaultScopes, then the tables with handles 1, 2, ...) never
-    has outcome class 2 (= panic).  Fuel exhaustion (class 3) is not excluded. *)
+    has outcome class 2 (= panic).  Fuel exhaustion (class 3) is not excluded.
+    (Audit note on the size of [fits]: it is L + L * (8 * len + 3) + 4 <= 0xffffffff with L = pool slots + 4 * len + 2, i.e. about
+    32 * len^2 <= 2^32 for a small pool: over the six default scopes an image (header included) may have at most about 11.5 KB - the
+    8648-byte DSDT.aml of /repo's tabletest fits (C12_load_never_panics_real_size), NO image of 12000 bytes does
+    (C12_fits_excludes_12000_bytes), and every table loaded before makes the bound tighter.  Larger tables are outside these three
+    theorems.  The handle [h] is an unbounded number here; in Go it is a uint8.) *)
 Theorem C12_parse_total_parseAML_keeps_invariant :
   forall (tree : T) (g : ghost) (earlier : list (list N)) (h : N) (data : list N) (s : pstate),
     INV tree g earlier h -> fits tree data -> parseAML tree earlier h data = Ok (true, s) ->
@@ -917,7 +922,12 @@ Print Assumptions C12_parse_total_fuel_enough.
     carry the sizes of the subtrees still to visit across a call, the specifications of ParserTotalNonNamed.v / ParserTotalCalls.v
     now also say which child lists a walk leaves alone (everything outside the subtree and its parent) and that the lists of
     following siblings only shrink.  The pool does not grow in these passes, so ParseAML's fuel (C12_parse_total_fuel_enough)
-    suffices.  NOT covered: the resolve loop and parseDeferredBlocks (fuel of passes 3 and 4), hence no combined "ParseAML returns". *)
+    suffices.  NOT covered: the resolve loop and parseDeferredBlocks (fuel of passes 3 and 4), hence no combined "ParseAML returns".
+    (Audit note: "suffices" is proved for pass 2 only.  The fuel hypothesis below is about the pool these passes START with, i.e. the
+    pool AFTER parseDeferredBlocks, which can grow the pool; C12_parse_total_fuel_enough needs pool <= pool0 + 4 * len + 2, the bound
+    proved after the first pass, whereas the bound proved after pass 4 is the quadratic one of [fits].  That ParseAML's own fuel
+    satisfies 2 * pool <= fuel when passes 5 and 6 start is therefore NOT proved (it does on every input tried, see notes/c12res.md 2b;
+    C12_fuel_real_state_nonvacuous instantiates the theorems at a parser-produced pool with ParseAML's fuel).) *)
 Theorem C12_parse_total_partial_fuel_resolveMethodCalls :
   forall (fuel : nat) (s : pstate) (g : ghost),
     R (p_tree s) g ->
